@@ -189,19 +189,11 @@ Proof.
 Qed.
 
 Theorem eval_save_load m P o ch nm e :
-  mk_eval m P o ch nm = Ok e -> (0 < length P)%nat -> ev_load (ev_save e) = Ok e.
+  mk_eval m P o ch nm = Ok e -> ev_load (ev_save e) = Ok e.
 Proof.
-  intros H HP. pose proof (mk_eval_ok _ _ _ _ _ _ H) as (-> & HPo & Hnm & Hrect & Hch).
+  intros H. pose proof (mk_eval_ok _ _ _ _ _ _ H) as (-> & HPo & Hnm & Hrect & Hch).
   unfold ev_save, ev_load. cbn [ev_preds ev_obs ev_chains ev_names].
-  destruct nm as [|x nm]; [cbn [length] in Hnm; lia|].
   rewrite Hch. exact H.
-Qed.
-
-Theorem eval_save_load_empty_refuted :
-  exists m P o ch nm e, mk_eval m P o ch nm = Ok e /\ ev_load (ev_save e) = Err E_TYPE.
-Proof.
-  exists 2%nat, [], [], [0%Z; 0%Z], [].
-  eexists. split; vm_compute; reflexivity.
 Qed.
 
 (* ---- calculate_mse ---- *)
